@@ -80,7 +80,7 @@ func (a Any) ReferenceOrigins(ctx context.Context) reference.Origins {
 
 	if typ.IsMapType() {
 		_, ok := a.expr.(*hclsyntax.ObjectConsExpr)
-		if !ok {
+		if !ok && !isJSONObjectExpr(a.expr) {
 			return a.refOriginsForNonComplexExpr(ctx)
 		}
 
